@@ -10,7 +10,7 @@ scratch copy under /tmp, run the property's quick check against the copy
 Mutants live in pbt/mutants/<ID>.json:
   [{"id": "m1", "file": "pyrex/ice_model.py", "old": "...", "new": "...", "count": 1,
     "note": "..."}]
-Results are appended to pbt/mutants/results.json (not evidence; a lab notebook).
+Results are written to pbt/mutants/results/<ID>.json (not evidence; a lab notebook).
 """
 import json
 import os
@@ -29,7 +29,8 @@ def main():
     only = set(sys.argv[2:])
     with open(os.path.join(HERE, "mutants", pid + ".json")) as f:
         mutants = json.load(f)
-    res_path = os.path.join(HERE, "mutants", "results.json")
+    os.makedirs(os.path.join(HERE, "mutants", "results"), exist_ok=True)
+    res_path = os.path.join(HERE, "mutants", "results", pid + ".json")
     results = {}
     if os.path.exists(res_path):
         with open(res_path) as f:
